@@ -14,9 +14,10 @@ import (
 
 type c04Step struct {
 	Variant int    `json:"variant"`
-	FailAt  int    `json:"fail_at"` // the k-th tick() call fails (0 = none)
-	Entry   string `json:"entry"`   // Execute ExecuteBytes ExecuteWriter ExecuteWriterUnbuffered
-	BadKey  bool   `json:"bad_key"` // context carries an invalid key => execution is refused
+	FailAt  int    `json:"fail_at"`       // the k-th tick() call fails (0 = none)
+	Entry   string `json:"entry"`         // Execute ExecuteBytes ExecuteWriter ExecuteWriterUnbuffered
+	BadKey  bool   `json:"bad_key"`       // context carries an invalid key => execution is refused
+	Opt     bool   `json:"opt,omitempty"` // context carries one more entry (which the helper files print): key sets differ between executions
 }
 
 type c04Case struct {
@@ -37,6 +38,9 @@ func c04ExecRaw(tpl *pongo2.Template, st c04Step) (string, string, []byte) {
 	ctx := progContext(st.Variant, &tickState{failAt: st.FailAt})
 	if st.BadKey {
 		ctx["not an identifier"] = 1
+	}
+	if st.Opt {
+		ctx["opt"] = fmt.Sprintf("OPT%d", st.Variant)
 	}
 	var out string
 	var err error
@@ -147,6 +151,7 @@ func genC04Hist(t *rapid.T, maxLen int) []c04Step {
 		case 2:
 			st.BadKey = drawInt(t, 0, 2, "badkey") == 0
 		}
+		st.Opt = drawInt(t, 0, 2, "opt") == 0
 		hist = append(hist, st)
 	}
 	return hist
@@ -154,7 +159,7 @@ func genC04Hist(t *rapid.T, maxLen int) []c04Step {
 
 var _ = register(&propSpec{
 	ID:   "C04.history",
-	Rule: "deterministic generated multi-file programs over every tag (incl. cycle, ifchanged, macros, includes static/lazy, import, extends, filter tag, spaceless), both TrimBlocks/LStripBlocks settings; histories of 2-6 executions on ONE compiled template with contexts from a pool of 3 (same names carrying different Go types), entry points chosen at random, some executions failing (k-th tick() fails, invalid context key, division by a zero variable); each (output, error text) must equal that of a freshly compiled template executed once, and the byte slices ExecuteBytes handed out are read again after the whole history (a result is the caller's; later executions leave it alone). Non-trivial: n >= 2 and (an earlier execution failed, or contexts differ, or a stateful tag is present); distinct by program+history.",
+	Rule: "deterministic generated multi-file programs over every tag (incl. cycle, ifchanged, macros, includes static/lazy, import, extends, filter tag, spaceless), both TrimBlocks/LStripBlocks settings; histories of 2-6 executions on ONE compiled template with contexts from a pool of 3, some of them carrying one more entry than the others (same names carrying different Go types), entry points chosen at random, some executions failing (k-th tick() fails, invalid context key, division by a zero variable); each (output, error text) must equal that of a freshly compiled template executed once, and the byte slices ExecuteBytes handed out are read again after the whole history (a result is the caller's; later executions leave it alone). Non-trivial: n >= 2 and (an earlier execution failed, or contexts differ, or a stateful tag is present); distinct by program+history.",
 	Gen: func(t *rapid.T) any {
 		return &c04Case{
 			Prog:   genProgram(t, progOpts{ticks: true, includes: true, inherit: true, stateful: true, errProne: drawInt(t, 0, 3, "errprone") == 0, maxDepth: 4, maxNodes: 30}),
